@@ -154,7 +154,7 @@ fn gen_case(r: &mut Rng, id: usize) -> Case {
         let keypos: Vec<i64> = keys.iter().map(|k| proj.iter().position(|p| *p == k.0).map(|x| x as i64).unwrap_or(-1)).collect();
         queries.push(Query {
             qid, kind: "main", sql: format!("select {} from t{}{}{}{}", sel(&proj), wh, ob, lim, off),
-            nkeys: 0, desc: desc.clone(), keypos, limit, offset,
+            nkeys: 0, desc: desc.clone(), keypos, limit, offset, wh: vec![], whpos: vec![],
         });
         let mut pk_cols = proj.clone();
         pk_cols.extend(keys.iter().map(|k| k.0));
@@ -162,12 +162,12 @@ fn gen_case(r: &mut Rng, id: usize) -> Case {
         if !keys.is_empty() {
             queries.push(Query {
                 qid, kind: "A", sql: format!("select {} from t{}{}", sel(&pk_cols), wh, ob),
-                nkeys: keys.len(), desc: desc.clone(), keypos: kp.clone(), limit: None, offset: None,
+                nkeys: keys.len(), desc: desc.clone(), keypos: kp.clone(), limit: None, offset: None, wh: vec![], whpos: vec![],
             });
         }
         queries.push(Query {
             qid, kind: "U", sql: format!("select {} from t{}", sel(&pk_cols), wh),
-            nkeys: keys.len(), desc, keypos: kp, limit: None, offset: None,
+            nkeys: keys.len(), desc, keypos: kp, limit: None, offset: None, wh: vec![], whpos: vec![],
         });
     }
     // storage level: sorted (merge) scan of all columns when there is a sort key
